@@ -8,7 +8,7 @@ from .lib import coq_mismatches, strip_comments
 LEVEL = "proof"
 META = {
     "category": "proof",
-    "text": "Coq theorems over a model of internal/compile/serial.go: Go's varint/uvarint codec defined and proved to round-trip for every int64/uint64 (with the truncated and overflow results), a schema-directed codec with the two sections of the wire format (program varints + string section referenced by lengths in lock step) proved to round-trip for every schema and every well-typed value with nothing left over and byte-identical re-encoding, the schema of Program/Funcode/Binding/constants written once in encoder order and once in decoder order and proved equal, hence decode(encode p) = p for every program within the ranges of the Go field types. The model is tied to /repo on every run: the real Program.Write bytes of compiled and synthetic programs must equal the model's encoding of the dump of every field, and the model's decoder must recover the dump from the real bytes; the direct property (same prints, globals, errors, backtraces, docstrings, parameter metadata, loads; same bytes on re-Write) is run on generated programs; truncated and corrupted files are decoded in sacrificial processes.",
+    "text": "Coq theorems over a model of internal/compile/serial.go: Go's varint/uvarint codec defined and proved to round-trip for every int64/uint64 (with the truncated and overflow results), a schema-directed codec with the two sections of the wire format (program varints + string section referenced by lengths in lock step) proved to round-trip for every schema and every well-typed value with nothing left over and byte-identical re-encoding, the schema of Program/Funcode/Binding/constants written once in encoder order and once in decoder order and proved equal, hence decode(encode p) = p for every program within the ranges of the Go field types. The model is tied to /repo on every run: the real Program.Write bytes of compiled and synthetic programs must equal the model's encoding of the dump of every field, and the model's decoder must recover the dump from the real bytes; the direct property (same prints, globals, errors, backtraces, docstrings, parameter metadata, loads; same bytes on re-Write) is run on generated programs, the bytes being handed to the decoder through bytes.Buffer / bytes.Reader / bufio / os.File / a raw slice and destroyed (buffer reused for another program, slice overwritten, file rewritten) before the decoded program is executed and written again; truncated and corrupted files are decoded in sacrificial processes.",
     "note": "Trusted: Coq kernel + vm_compute; the Go harness and its program generator; math.Float64bits/Float64frombits as an oracle (a float constant is modelled by its bits); big.Int.Text(10)/SetString are modelled by Codec.print_dec/parse_dec (round trip proved, tied to the real text by the byte-level correspondence); the field lists of Program/Funcode are compared with compile.go textually; execution equivalence itself is observed on generated programs, the theorem is equality of every field the interpreter reads.",
     "technique": "Coq proof over executable model + differential correspondence (vm_compute) + decoder-side oracle + direct round-trip runs + corrupted-input runs in child processes",
 }
@@ -217,6 +217,8 @@ def run(ctx):
             continue
         for f in c.get("feats") or []:
             dist[f] = dist.get(f, 0) + 1
+        if c.get("reader"):
+            dist["input:" + c["reader"]] = dist.get("input:" + c["reader"], 0) + 1
         nfail += 1 if c.get("failed") else 0
         nsat += 1 if c.get("saturated") else 0
         nfuncs += c.get("nfuncs", 0)
@@ -266,9 +268,9 @@ Definition spec_ok (c : case) : bool :=
 (* the dump is within the ranges the theorems assume *)
 Definition wt_ok (c : case) : bool := wt_program (fst c).
 """
-    if quick and len(terms) > 56:
+    if quick and len(terms) > 44:
         # quick tier: a seed-dependent stride through the boundary pool (the thorough tier evaluates all of it)
-        step = len(terms) // 56 + 1
+        step = len(terms) // 44 + 1
         off = ctx.seed % step
         terms, refs = terms[off::step], refs[off::step]
     ctx.log("(b) evaluating %d distinct (dump, bytes) cases in Coq" % len(terms))
@@ -315,8 +317,8 @@ Definition wt_ok (c : case) : bool := wt_program (fst c).
             dcases.append("(%s, %s)" % (hexlist(c["hex"]), cb(c["ok"])))
             drefs.append(c)
     ctx.log("(c) %d corrupted files: %s" % (csum.get("cases", 0), csum.get("outcomes")))
-    if quick and len(dcases) > 72:
-        step = len(dcases) // 72 + 1
+    if quick and len(dcases) > 48:
+        step = len(dcases) // 48 + 1
         off = ctx.seed % step
         dcases, drefs = dcases[off::step], drefs[off::step]
     # the decoder model reproduces accept / reject on the small corrupted files
